@@ -17,6 +17,7 @@ import tempfile
 import time
 import traceback
 import random
+import re
 
 from . import core
 from .core import HarnessError, VERIF_DIR
@@ -86,6 +87,18 @@ def worker_main(a):
     done = 0
     first = None
     limit = engine.RUN_LIMIT_S.get(a.prop, 60) if hasattr(engine, 'RUN_LIMIT_S') else 60
+    if a.casefile:
+        # regression seed: replay one recorded case (known / fixed finding) under its recorded hash seed
+        blob = json.load(open(a.casefile))
+        res, herr = run_one(engine, blob['case'], a.prop, limit)
+        out['regression'] = os.path.basename(a.casefile)
+        if herr is not None:
+            out['harness'].append({'index': -1, 'error': 'regression seed %s: %s' % (a.casefile, herr)})
+        else:
+            for v in res.get('violations', []):
+                per_sig[v['sig']] = per_sig.get(v['sig'], 0) + 1
+                out['violations'].append({'index': -1, 'hashseed': a.hashseed, 'violation': core.jsonable(v), 'case': core.jsonable(blob['case'])})
+        a.count = 0
     while done < a.count and time.time() < a.deadline:
         rs = core.run_seed(a.seed, a.prop, i)
         rnd = random.Random(rs)
@@ -228,6 +241,8 @@ def match_known(known, prop, sig):
             return k
         if 'sig_prefix' in k and sig.startswith(k['sig_prefix']):
             return k
+        if 'sig_re' in k and re.search(k['sig_re'], sig):
+            return k
     return None
 
 
@@ -255,6 +270,17 @@ def orchestrate(a):
                 cmd += ['--digests', '1']
             log = open(os.path.join(work, 'w%d.log' % w), 'w')
             procs.append((subprocess.Popen(cmd, env=child_env(w % nh), stdout=log, stderr=subprocess.STDOUT, cwd=VERIF_DIR), out, log))
+        regress = [k for k in load_known() if k['property'] == prop and k.get('replay')]
+        for n, k in enumerate(regress):
+            path = os.path.join(VERIF_DIR, k['replay'])
+            if not os.path.exists(path):
+                continue
+            hs = json.load(open(path)).get('hashseed', 0)
+            out = os.path.join(work, 'r%d.json' % n)
+            cmd = [PY, CHECK, prop, '--worker', '--tier', tier, '--seed', str(seed), '--hashseed', str(hs), '--casefile', path,
+                   '--deadline', repr(deadline), '--out', out]
+            log = open(os.path.join(work, 'r%d.log' % n), 'w')
+            procs.append((subprocess.Popen(cmd, env=child_env(hs), stdout=log, stderr=subprocess.STDOUT, cwd=VERIF_DIR), out, log))
         hard = deadline + cfg.get('grace_s', 120)
         harness_errors = []
         for p, out, log in procs:
@@ -270,7 +296,7 @@ def orchestrate(a):
             if os.path.exists(out):
                 results.append(json.load(open(out)))
             else:
-                tail = open(os.path.join(work, 'w%d.log' % w)).read()[-1500:]
+                tail = open(out[:-5] + '.log').read()[-1500:]
                 harness_errors.append('worker %d produced no result (exit %s): %s' % (w, p.returncode, tail))
         return finish(a, engine, prop, tier, seed, results, harness_errors, t0, nh, W, runs, work)
     finally:
@@ -409,6 +435,7 @@ def main(argv=None):
     ap.add_argument('--count', type=int, default=1)
     ap.add_argument('--deadline', type=float, default=0)
     ap.add_argument('--out')
+    ap.add_argument('--casefile')
     a = ap.parse_args(argv)
     if a.prop.startswith('selftest'):
         from . import selftest
